@@ -1,13 +1,17 @@
 (* C05 proofs, part 6: one statement of the loop preserves the simulation invariant (Asm/LayoutSim.v).
    Hypotheses per statement: the context's step returned Ok and recorded no diagnostic, and pass 1 / pass 2 of the
-   reference are defined for it.  Statement class (stmt_ok): everything except .dfile / .include / .global / .import /
-   .export; an instruction statement that mentions a symbol defined LATER must be a B<cond> / BL whose target has a
-   checked 64-bit value in the final table, or CPSIE / CPSID / DMB / DSB / ISB (their operand is a bare identifier that
-   is never looked up). *)
+   reference are defined for it.  Two statement classes:
+   * stmt_ok (the first one, kept because Bin/TridasLayout.v builds it): everything except .dfile / .include / .global /
+     .import / .export; an instruction statement that mentions a symbol defined LATER must be a B<cond> / BL whose target has
+     a checked 64-bit value in the final table, or CPSIE / CPSID / DMB / DSB / ISB (operand never looked up);
+   * stmt_okx (wider, what the lemmas below use; stmt_ok_x : stmt_ok -> stmt_okx): a deferred instruction statement of ANY
+     template whose evaluated operand is LayoutStage.staged_ok, and .dfile (fs = the files the context reads relative to the
+     current file, fsr = the files the reference reads).
+   Every lemma also returns path_stack st' = path_stack st (the .dfile case needs the current file's path). *)
 From Coq Require Import ZArith NArith PeanoNat List Bool Lia ZifyBool ZifyNat ZifyN String.
 From Trion Require Import Text.Types Expr.I64 Expr.EvalModel Expr.Denote Expr.C08Sound Arm.Instr Arm.DisplayModel Arm.AsmStmtModel Arm.EncodeModel
   Mem.MapModel Mem.DictSpec Mem.MapProofs Mem.MapLemmas
-  Asm.CtxModel Asm.SegProofs Asm.LayoutSpec Asm.LayoutEval Asm.LayoutInstr Asm.LayoutDict Asm.ScopeProofs Asm.LayoutProofs Asm.LayoutSim Asm.Ctx06Proofs.
+  Asm.CtxModel Asm.SegProofs Asm.LayoutSpec Asm.LayoutEval Asm.LayoutInstr Asm.LayoutInstrD Asm.LayoutDict Asm.ScopeProofs Asm.LayoutProofs Asm.LayoutSim Asm.LayoutStage Asm.Ctx06Proofs Asm.CtxNoPanic Asm.CtxInvCap.
 Import ListNotations.
 Open Scope N_scope.
 
@@ -23,6 +27,31 @@ Definition stmt_ok (E ek : env) (e : element_value) : Prop :=
       (exists t, template name = Some t /\ is_branch t = true /\ forall a, In a args -> den64 (rho E) a <> None) \/
       (exists t, template name = Some t /\ no_eval t = true)
   end.
+
+(* the wider class.
+   * an instruction statement that mentions a LATER symbol may be of ANY template, provided the one operand the template
+     evaluates (LayoutInstrD.eval_pos: the immediate / offset / target / memory operand) is staged_ok, i.e. has a checked
+     64-bit value in the final table (ADR, LDR literal, ADDS/SUBS/MOVS/CMP/LSLS/.. #imm, BKPT/SVC/UDF, B<cond>/BL);
+   * .dfile is in the class: the context reads  fs (resolve_path <current file> name), the reference  fsr name; the class
+     asks that the two agree on the names the program uses (for fsr = fun v => fs (resolve_path path v) this is trivial). *)
+Definition stmt_okx (fs fsr : str -> option (list N)) (path : str) (E ek : env) (e : element_value) : Prop :=
+  match e with
+  | ELabel _ => True
+  | EDirective name args => dir_of name = Some DFile -> forall v, args = [AStr v] -> fsr v = fs (resolve_path path v)
+  | EInstruction name args =>
+      (forall a, In a args -> known_in ek a) \/
+      (exists t pos, template name = Some t /\ eval_pos t = Some pos /\ forall a, nth_error args pos = Some a -> staged_ok E a) \/
+      (exists t, template name = Some t /\ no_eval t = true)
+  end.
+
+Lemma stmt_ok_x fs fsr path E ek e : stmt_ok E ek e -> stmt_okx fs fsr path E ek e.
+Proof.
+  destruct e as [n|name args|name args]; cbn [stmt_ok stmt_okx]; auto.
+  - intros H Hd. contradiction.
+  - intros [K|[(t & Et & HB & HD)|K]]; [left; exact K| |right; right; exact K].
+    right. left. exists t, 0%nat. split; [exact Et|]. split; [apply is_branch_eval_pos; exact HB|].
+    intros a Ha. left. apply HD. eapply nth_error_In; eauto.
+Qed.
 
 (* ------------------------------------------------------------------ small facts *)
 Lemma curr_addr_lt m s : SegInv m s -> s_base s + blen s < CtxSeg.U32 -> curr_addr s = s_base s + blen s.
@@ -195,7 +224,7 @@ Section Step.
     Sim E st cur ek (gdict E items) ->
     step dbg fs inc st (mkElement line col (ELabel name)) = Ret None st' ->
     pass1_step fs (mkP1 cur ek items) (ELabel name) = Some s' -> env_le (p_env s') E ->
-    Sim E st' (p_cur s') (p_env s') (gdict E (p_items s')).
+    Sim E st' (p_cur s') (p_env s') (gdict E (p_items s')) /\ path_stack st' = path_stack st.
   Proof.
     intros (ts & ELT & H) HS HP HE. pose proof H as [R T V C Er Gt A D L P W].
     unfold step in HS. cbn [e_val e_line e_col] in HS.
@@ -208,7 +237,7 @@ Section Step.
     rewrite Rg in HS. cbn [realm_table] in HS. rewrite EL, (TE name), Eg in HS. cbn [option_map CtxModel.bind set_realm_table] in HS.
     inversion HS; subst st'.
     rewrite (curr_addr_lt _ _ HI) by (unfold CtxSeg.U32, MapModel.U32; lia). rewrite <- Ea.
-    exists ts. split; [exact ELT|]. apply sim_define; auto.
+    split; [|reflexivity]. exists ts. split; [exact ELT|]. apply sim_define; auto.
   Qed.
 
   (* ---------------- .const ---------------- *)
@@ -217,7 +246,7 @@ Section Step.
     (match args with
      | [AIdent n; a] => match den64 (rho ek) a with Some v => define (mkP1 cur ek items) n v | None => None end
      | _ => None end) = Some s' -> env_le (p_env s') E ->
-    Sim E st' (p_cur s') (p_env s') (gdict E (p_items s')).
+    Sim E st' (p_cur s') (p_env s') (gdict E (p_items s')) /\ path_stack st' = path_stack st.
   Proof.
     intros (ts & ELT & H) HS HP HE. pose proof H as [R T V C Er Gt A D L P W].
     destruct args as [|a0 [|a1 [|a2 r]]]; try dh. destruct a0; try dh.
@@ -231,7 +260,7 @@ Section Step.
     destruct (eval_now_val ek st tbl p ps EL EP TE line col a1 v st1 w EN Dn) as (-> & ->).
     unfold insert_constant in HS. change (CtxModel.is_register s) with (AsmStmtModel.is_register s) in HS.
     rewrite Rg in HS. cbn [realm_table] in HS. rewrite EL, (TE s), Eg in HS. cbn [option_map set_realm_table] in HS.
-    inversion HS; subst st'. exists ts. split; [exact ELT|]. apply sim_define; auto.
+    inversion HS; subst st'. split; [|reflexivity]. exists ts. split; [exact ELT|]. apply sim_define; auto.
   Qed.
 
   (* ---------------- .addr ---------------- *)
@@ -242,7 +271,7 @@ Section Step.
               | Some v => match u32z v with Some x => Some (mkP1 (Some x) ek items) | None => None end
               | None => None end
      | _ => None end) = Some s' ->
-    Sim E st' (p_cur s') (p_env s') (gdict E (p_items s')).
+    Sim E st' (p_cur s') (p_env s') (gdict E (p_items s')) /\ path_stack st' = path_stack st.
   Proof.
     intros (ts & ELT & H) HS HP. pose proof H as [R T V C Er Gt A D L P W].
     destruct args as [|a [|a2 r]]; try dh.
@@ -256,7 +285,7 @@ Section Step.
     rewrite u32_of_u32z, U in HS.
     destruct (change_segment dbg st x) as [[c|e] st2| |] eqn:CS; try dh. inversion HS; subst st2.
     destruct (sim_switch dbg E st cur ek (gdict E items) ts x c st' H (u32z_lt _ _ U) CS) as (H' & ET).
-    exists ts. split; [congruence|exact H'].
+    split; [exists ts; split; [congruence|exact H']|]. pose proof (change_segment_s dbg st x) as CS'. rewrite CS in CS'. exact (proj2 (proj2 (proj2 (proj2 CS')))).
   Qed.
 
   (* ---------------- .align ---------------- *)
@@ -272,7 +301,7 @@ Section Step.
          | None => None
          end
      | _, _ => None end) = Some s' ->
-    Sim E st' (p_cur s') (p_env s') (gdict E (p_items s')).
+    Sim E st' (p_cur s') (p_env s') (gdict E (p_items s')) /\ path_stack st' = path_stack st.
   Proof.
     intros (ts & ELT & H) HS HP. pose proof H as [R T V C Er Gt A D L P W].
     destruct args as [|a [|a2 r]]; try dh. destruct cur as [c|]; [|dh].
@@ -291,13 +320,13 @@ Section Step.
     assert (Hm : c mod N.pos k < N.pos k) by (apply N.mod_lt; discriminate).
     destruct (c mod N.pos k =? 0) eqn:Z0.
     - inversion HS; subst st'. assert (sz = 0) by (unfold sz; replace (c mod N.pos k) with 0 by lia; rewrite N.sub_0_r; apply N.mod_same; discriminate).
-      rewrite H0. cbn [N.to_nat repeat d_write]. rewrite N.add_0_r. exists ts. split; [exact ELT|exact H].
+      rewrite H0. cbn [N.to_nat repeat d_write]. rewrite N.add_0_r. split; [|reflexivity]. exists ts. split; [exact ELT|exact H].
     - assert (Hsz : sz = N.pos k - c mod N.pos k) by (unfold sz; apply N.mod_small; lia).
       rewrite <- Hsz in HS. rewrite (has_remaining_ok dbg _ _ _ HI) in HS.
       destruct (sz <=? s_max sg - blen sg) eqn:Lr; [|dh].
       destruct (write_ok dbg (output st) sg (padding sz) HI) as (WO & _); [rewrite len_padding; destruct HI; lia|].
       rewrite WO in HS. cbn [seg_update] in HS. inversion HS; subst st'.
-      exists ts. split; [exact ELT|].
+      split; [|reflexivity]. exists ts. split; [exact ELT|].
       pose proof (sim_append E st c ek (gdict E items) ts sg (padding sz) (repeat 190 (N.to_nat sz)) None H EA) as SA.
       rewrite len_padding in SA. apply SA.
       + destruct HI; lia.
@@ -312,7 +341,7 @@ Section Step.
     (d = DHex /\ (match args with
                   | [AStr v] => match hex_pairs v None with Some b => place (mkP1 cur ek items) (N.of_nat (List.length b)) (IBytes b) | None => None end
                   | _ => None end) = Some s') ->
-    Sim E st' (p_cur s') (p_env s') (gdict E (p_items s')).
+    Sim E st' (p_cur s') (p_env s') (gdict E (p_items s')) /\ path_stack st' = path_stack st.
   Proof.
     intros (ts & ELT & H) HS Hd. pose proof H as [R T V C Er Gt A D L P W].
     assert (exists s b, args = [AStr s] /\ place (mkP1 cur ek items) (N.of_nat (List.length b)) (IBytes b) = Some s' /\
@@ -331,8 +360,35 @@ Section Step.
       apply hex_agree in HD. rewrite HD in Hx. inversion Hx; subst. exact HS. }
     destruct (N.le_gt_cases (blen sg + mlen b) (s_max sg)) as [Hc|Hc].
     - destruct (write_ok dbg (output st) sg b HI Hc) as (WO & _). rewrite WO in HW. cbn [seg_update] in HW. inversion HW; subst st'.
-      exists ts. split; [exact ELT|]. apply (sim_append E st c ek (gdict E items) ts sg b b None H EA Hc eq_refl eq_refl).
+      split; [|reflexivity]. exists ts. split; [exact ELT|]. apply (sim_append E st c ek (gdict E items) ts sg b b None H EA Hc eq_refl eq_refl).
     - rewrite (write_overflow dbg (output st) sg b HI Hc) in HW. discriminate.
+  Qed.
+
+  (* ---------------- .dfile ---------------- *)
+  (* the read loop writes the file in 1024-byte chunks: after the capacity test it is one append of the whole file *)
+  Lemma file_sim fsr st cur ek items line col args st' s' path ps :
+    Sim E st cur ek (gdict E items) -> path_stack st = path :: ps ->
+    (forall v, args = [AStr v] -> fsr v = fs (resolve_path path v)) ->
+    dir_bytes dbg fs st line col DFile args = Ret None st' ->
+    (match args with
+     | [AStr v] => match fsr v with Some b => place (mkP1 cur ek items) (N.of_nat (List.length b)) (IBytes b) | None => None end
+     | _ => None end) = Some s' ->
+    Sim E st' (p_cur s') (p_env s') (gdict E (p_items s')) /\ path_stack st' = path_stack st.
+  Proof.
+    intros (ts & ELT & H) EPS HF HS HP. pose proof H as [R T V C Er Gt A D L P W].
+    destruct args as [|a [|a2 r]]; try dh; destruct a; try dh. rewrite (HF s eq_refl) in HP.
+    destruct (fs (resolve_path path s)) as [b|] eqn:FS; [|dh].
+    unfold place in HP. cbn [p_cur p_env p_items] in HP.
+    destruct cur as [c|]; [|dh]. destruct (c + N.of_nat (List.length b) <=? 4294967296); [|dh].
+    inversion HP; subst s'. cbn [p_cur p_env p_items gdict pass2_item].
+    destruct C as (sg & EA & HI & Ea).
+    unfold dir_bytes in HS. rewrite EA in HS. cbn [arity_check List.length Nat.eqb] in HS. rewrite EPS, FS in HS.
+    rewrite (has_remaining_ok dbg _ _ _ HI) in HS.
+    destruct (CtxSeg.len b <=? s_max sg - blen sg) eqn:Lr; [|dh].
+    assert (Hc : blen sg + mlen b <= s_max sg) by (destruct HI; unfold CtxSeg.len in Lr; lia).
+    rewrite (write_chunks_exact dbg _ _ sg HI) in HS; rewrite concat_chunks in *; [|exact Hc].
+    cbn [seg_update] in HS. inversion HS; subst st'. split; [|reflexivity].
+    exists ts. split; [exact ELT|]. apply (sim_append E st c ek (gdict E items) ts sg b b None H EA Hc eq_refl eq_refl).
   Qed.
 
   (* the tail of a deferred (or failed) statement: placeholder, then the task; it only extends the diagnostics *)
@@ -364,7 +420,7 @@ Section Step.
     Sim E st cur ek (gdict E items) -> dir_data dbg st line col k args = Ret None st' -> errors st' = [] ->
     (match args with [a] => place (mkP1 cur ek items) (dk_size k) (IData (dk_size k) a) | _ => None end) = Some s' ->
     (forall a it, In (a, it) (p_items s') -> pass2_item E a it <> None) ->
-    Sim E st' (p_cur s') (p_env s') (gdict E (p_items s')).
+    Sim E st' (p_cur s') (p_env s') (gdict E (p_items s')) /\ path_stack st' = path_stack st.
   Proof.
     intros (ts & ELT & H) HS HZ HP H2. pose proof H as [R T V C Er Gt A D L P W].
     destruct args as [|a [|a2 r]]; try dh. unfold place in HP. cbn [p_cur p_env p_items] in HP.
@@ -395,7 +451,7 @@ Section Step.
       destruct ((0 <=? v)%Z && (v <=? dk_max k)%Z) eqn:Rv.
       + rewrite WA in HS by (try reflexivity; apply len_le_n'). cbn [CtxModel.bind] in HS. inversion HS; subst st'.
         assert (v = w) by (eapply fwd_const; eauto). subst v.
-        exists ts. split; [exact ELT|].
+        split; [|reflexivity]. exists ts. split; [exact ELT|].
         pose proof (sim_append E st c ek (gdict E items) ts sg (le_n (dk_size k) (Z.to_N w)) (le_n (dk_size k) (Z.to_N w)) None H EA) as SA.
         rewrite len_le_n' in SA. apply SA; auto.
       + cbn [CtxModel.bind] in HS. exfalso. eapply pushed_not_clean; [eapply tail_data_ext; exact HS|exact HZ].
@@ -403,7 +459,7 @@ Section Step.
     - destruct e as [nm|e].
       + cbn [CtxModel.bind] in HS. rewrite WA in HS by (try reflexivity; apply len_padding). cbn [CtxModel.bind] in HS.
         unfold add_task in HS. cbn [local_tasks set_active] in HS. rewrite ELT in HS. cbn [CtxModel.bind] in HS.
-        inversion HS; subst st'. eexists. split; [reflexivity|].
+        inversion HS; subst st'. split; [|reflexivity]. eexists. split; [reflexivity|].
         pose proof (sim_append E st c ek (gdict E items) ts sg (padding (dk_size k)) (le_n (dk_size k) (Z.to_N w))
                       (Some (DataTask (de_set_arg (mkDE k (curr_name st) line col c a) a') false)) H EA) as SA.
         rewrite len_padding in SA.
@@ -419,10 +475,10 @@ Section Step.
   (* ---------------- instruction statements ---------------- *)
   Lemma instr_sim st cur ek items line col name args st' s' :
     Sim E st cur ek (gdict E items) -> assemble_instr dbg st line col name args = Ret None st' -> errors st' = [] ->
-    stmt_ok E ek (EInstruction name args) ->
+    stmt_okx fs fs [] E ek (EInstruction name args) ->
     (match instr_size name with Some sz => place (mkP1 cur ek items) sz (IInstr name args) | None => None end) = Some s' ->
     (forall a it, In (a, it) (p_items s') -> pass2_item E a it <> None) ->
-    Sim E st' (p_cur s') (p_env s') (gdict E (p_items s')).
+    Sim E st' (p_cur s') (p_env s') (gdict E (p_items s')) /\ path_stack st' = path_stack st.
   Proof.
     intros (ts & ELT & H) HS HZ OK HP H2. pose proof H as [R T V C Er Gt A D L P W].
     destruct (instr_size name) as [sz|] eqn:Isz; [|dh]. unfold place in HP. cbn [p_cur p_env p_items] in HP.
@@ -448,7 +504,7 @@ Section Step.
       rewrite AM' in AF. inversion AF; subst iF sF. rewrite EF in HS.
       assert (Hpos : 0 < mlen bF) by (unfold mlen; rewrite LF; destruct i; cbn; lia).
       destruct (write_stmt_cur dbg st sg _ _ _ _ _ _ _ _ _ EA HI Hpos Hlt Ea HS) as (Hc & ->).
-      exists ts. split; [exact ELT|].
+      split; [|reflexivity]. exists ts. split; [exact ELT|].
       pose proof (sim_append E st c ek (gdict E items) ts sg bF bF None H EA Hc eq_refl eq_refl) as SA.
       replace (mlen bF) with sz in SA by (unfold mlen; rewrite LF; congruence). exact SA.
     - (* deferred *)
@@ -461,25 +517,24 @@ Section Step.
       destruct (write_stmt_cur dbg st sg _ _ _ _ _ _ _ _ _ EA HI Hpos Hlt Ea WS) as (Hc & ->).
       rewrite len_padding in Hc.
       unfold add_task in HS. cbn [local_tasks set_active] in HS. rewrite ELT in HS. cbn [CtxModel.bind] in HS.
-      inversion HS; subst st'. eexists. split; [reflexivity|].
-      (* the class: a deferring operand is not known, so this is a branch with a valued target *)
-      destruct (assemble_args_defer _ _ _ _ _ _ _ AM) as (x & x' & sx & Ix & Ex & N1 & N2).
-      destruct OK as [K|[(t' & Et' & HB & HD)|(t' & Et' & HN)]].
-      { exfalso. eapply (instr_ev_defers ek st tbl p ps EL EP TE); eauto. }
-      2:{ exfalso. rewrite Et in Et'. inversion Et'; subst t'. eapply no_eval_nodefer; eauto. }
-      rewrite Et in Et'. inversion Et'; subst t'.
-      destruct (branch_defer _ _ _ _ _ _ HB AM) as (a0 & a1' & s0 & -> & E0 & N0 & ->).
-      destruct (den64 (rho E) a0) as [v|] eqn:Dv; [|exfalso; apply (HD a0); [now left|exact Dv]].
+      inversion HS; subst st'. split; [|reflexivity]. eexists. split; [reflexivity|].
+      (* the class: a deferring operand is not known, so it is the evaluated operand of the template, and it is staged_ok *)
+      destruct (assemble_args_defer_pos _ _ _ _ _ _ _ AM) as (pos & x & x' & sx & EPo & Nx & Ex & N1 & N2 & ->).
+      assert (SO : staged_ok E x).
+      { destruct OK as [K|[(t' & pos' & Et' & EP' & HD)|(t' & Et' & HN)]].
+        - exfalso. eapply (instr_ev_defers ek st tbl p ps EL EP TE); eauto. apply K. eapply nth_error_In; eauto.
+        - rewrite Et in Et'. inversion Et'; subst t'. rewrite EPo in EP'. inversion EP'; subst pos'. apply HD. exact Nx.
+        - exfalso. rewrite Et in Et'. inversion Et'; subst t'. eapply no_eval_nodefer; eauto. }
+      destruct (stage_stg E ek st tbl p ps EL EP TE V x x' sx SO Ex N1 N2) as (SG & _).
       pose proof (sim_append E st c ek (gdict E items) ts sg (padding nP) bF
-                    (Some (InstrTask (mkAI (curr_name st) line col c (partial_instr t (mkAst [a1'] 0)) (mkAst [a1'] 0)) false)) H EA) as SA.
+                    (Some (InstrTask (mkAI (curr_name st) line col c (partial_instr t (mkAst (AsmStmtModel.set_nth pos x' args) 0)) (mkAst (AsmStmtModel.set_nth pos x' args) 0)) false)) H EA) as SA.
       rewrite len_padding in SA. replace nP with sz in * by congruence.
       eapply simT_transport; [| | | | | |apply SA]; try reflexivity; auto.
       + exists tbl, p, ps. auto.
       + unfold mlen. rewrite LF. congruence.
       + cbn [task_addr task_size ai_addr ai_instr]. split; [reflexivity|]. split; [rewrite partial_isz; congruence|].
-        cbn [PendG ai_ast ai_instr ai_addr]. exists a0, a1', v, iF, sF, nF, bF.
-        split; [reflexivity|]. split; [destruct t; try discriminate HB; reflexivity|].
-        split; [eapply (instr_ev_fwd E ek st tbl p ps EL EP TE V); exact E0|]. split; [exact Dv|].
+        cbn [PendG ai_ast ai_instr ai_addr]. exists args, pos, x, x', iF, sF, nF, bF.
+        split; [reflexivity|]. split; [rewrite partial_eval_pos; exact EPo|]. split; [exact Nx|]. split; [exact SG|].
         split; [rewrite assemble_args_partial; exact AF|]. split; [exact EF|apply at_bytes_write].
     - (* diagnostic *)
       cbn [CtxModel.bind] in HS. exfalso. eapply pushed_not_clean; [eapply tail_instr_ext; exact HS|exact HZ].
@@ -488,20 +543,19 @@ Section Step.
 End Step.
 
 (* ------------------------------------------------------------------ one statement *)
-Lemma sim_step dbg fs inc E st cur ek items e st' s' :
-  Sim E st cur ek (gdict E items) -> stmt_ok E ek (e_val e) ->
+Lemma sim_step dbg fs fsr inc E st cur ek items e st' s' path ps :
+  Sim E st cur ek (gdict E items) -> path_stack st = path :: ps -> stmt_okx fs fsr path E ek (e_val e) ->
   step dbg fs inc st e = Ret None st' -> errors st' = [] ->
-  pass1_step fs (mkP1 cur ek items) (e_val e) = Some s' ->
+  pass1_step fsr (mkP1 cur ek items) (e_val e) = Some s' ->
   env_le (p_env s') E -> (forall a it, In (a, it) (p_items s') -> pass2_item E a it <> None) ->
-  Sim E st' (p_cur s') (p_env s') (gdict E (p_items s')).
+  Sim E st' (p_cur s') (p_env s') (gdict E (p_items s')) /\ path_stack st' = path_stack st.
 Proof.
-  intros HSim OK HS HZ HP HE H2. destruct e as [line col ev]. cbn [e_val] in *. destruct ev as [name|name args|name args].
-  - eapply label_sim; eauto.
+  intros HSim EPS OK HS HZ HP HE H2. destruct e as [line col ev]. cbn [e_val] in *. destruct ev as [name|name args|name args].
+  - apply (label_sim dbg fsr inc E st cur ek items line col name st' s' HSim HS HP HE).
   - unfold step in HS. cbn [e_val e_line e_col] in HS. unfold process_directive in HS.
-    cbn [stmt_ok] in OK. destruct (dir_of name) as [d|] eqn:Ed; [|dh].
+    cbn [stmt_okx] in OK. destruct (dir_of name) as [d|] eqn:Ed; [|dh].
     unfold pass1_step, dname in HP. cbn [p_env p_cur] in HP. unfold dir_of, CtxModel.is, AsmStmtModel.is in Ed.
-    repeat match type of Ed with (if ?c then _ else _) = _ => destruct c eqn:? end; try discriminate Ed; inversion Ed; subst d;
-      try (exfalso; apply OK; reflexivity); try dh.
+    repeat match type of Ed with (if ?c then _ else _) = _ => destruct c eqn:? end; try discriminate Ed; inversion Ed; subst d; try dh.
     + eapply addr_sim; eauto.
     + eapply align_sim; eauto.
     + eapply const_sim; eauto.
@@ -512,6 +566,11 @@ Proof.
       { exfalso. assert (X : bytes_of_string "dhex" = bytes_of_string "dstr") by (eapply str_clash; eauto). vm_compute in X. discriminate X. }
       eapply bytes_sim; eauto.
     + eapply bytes_sim; eauto.
+    + destruct (AsmStmtModel.str_eqb name (bytes_of_string "dstr")) eqn:K1.
+      { exfalso. assert (X : bytes_of_string "dfile" = bytes_of_string "dstr") by (eapply str_clash; eauto). vm_compute in X. discriminate X. }
+      destruct (AsmStmtModel.str_eqb name (bytes_of_string "dhex")) eqn:K2.
+      { exfalso. assert (X : bytes_of_string "dfile" = bytes_of_string "dhex") by (eapply str_clash; eauto). vm_compute in X. discriminate X. }
+      apply (file_sim dbg fs inc E fsr st cur ek items line col args st' s' path ps HSim EPS (OK eq_refl) HS HP).
   - unfold step in HS. cbn [e_val e_line e_col] in HS. destruct (active st) eqn:EA; [dh|].
-    cbn [pass1_step] in HP. eapply instr_sim; eauto.
+    cbn [pass1_step] in HP. apply (instr_sim dbg fs inc E st cur ek items line col name args st' s' HSim HS HZ OK HP H2).
 Qed.
